@@ -40,6 +40,17 @@ use std::fmt;
 #[derive(Clone, Copy, Eq, Hash, PartialEq, PartialOrd, Ord)]
 pub struct Ttl(u32);
 
+impl Ttl {
+    /// Wraps the raw 32-bit TTL field of a pseudo-RR (such as OPT) that
+    /// reuses the field for other data. No [RFC 2181 § 8] clamping is
+    /// applied.
+    ///
+    /// [RFC 2181 § 8]: https://datatracker.ietf.org/doc/html/rfc2181#section-8
+    pub(crate) const fn from_raw_field(raw: u32) -> Self {
+        Self(raw)
+    }
+}
+
 impl From<u32> for Ttl {
     fn from(raw: u32) -> Self {
         if raw > i32::MAX as u32 {
